@@ -30,6 +30,15 @@ def run(tier, seed):
             p["ops"] = [o for o in p["ops"] if o["op"] != "whitelist"] + \
                        [{"op": "req", "name": nm, "save": True, "req": {"type": "cum", "source": src, "start": str(t0 + k * h)}}] + wl
             reqs.append({"name": nm, "req": p["ops"][-1 - len(wl)]["req"], "save": True})
+        fl_reqs = [o for o in p["ops"] if o["op"] == "req" and o["req"]["type"] == "flow" and not o["req"].get("sf")
+                   and not o["req"].get("df")]
+        if fl_reqs and len(progs) % 3 == 1:
+            # a flow with the requested name that is added AFTER the request (and after the last stratification): the
+            # output is defined by the name, so it counts this flow too
+            wl_ = [o for o in p["ops"] if o["op"] == "whitelist"]
+            late = {"op": "flow", "kind": "importation", "name": g.rng.choice(fl_reqs)["req"]["flow_name"],
+                    "param": g.rng.choice(["3/2", "5", {"+": ["1", "t"]}]), "dst": p["comps"][0]}
+            p["ops"] = [o for o in p["ops"] if o["op"] != "whitelist"] + [late] + wl_
         wl = [o["names"] for o in p["ops"] if o["op"] == "whitelist"]
         cvs = {o["name"]: o["e"] for o in p["ops"] if o["op"] == "cv"}
         pv = g.params_values(small=True)
@@ -54,7 +63,7 @@ def run(tier, seed):
                                                  for o in (a.get("obs") or [])):
             nontrivial.add(checklib.signature(p))
     return {"programs": progs, "explore": ex, "distinct_nontrivial": len(nontrivial),
-            "rule": "stratified models with time-varying weights and 1-7 chained requests of all kinds (strata filters, raw and "
+            "rule": "(a third of the models get another flow of a requested name after the request) stratified models with time-varying weights and 1-7 chained requests of all kinds (strata filters, raw and "
                     "midpoint flows, cumulative with and without a start time, function outputs with parameters, computed "
                     "values), euler trajectories compared with the model; on the implementation every output is recomputed from "
                     "outputs and one_step flow rates at every row, for euler, rk4 or the adaptive solver; non-trivial = some "
